@@ -104,10 +104,17 @@ def run(ctx, res):
         else:
             res.check(bool(form) and v == frozenset((LT,)), "C06.R2", site(add, "no-spill"), "no spill only while strictly below max_memory",
                       "entries keep accumulating although the limit may be reached (%s %s max_memory)" % (a, sorted(v)), add.loc(add.body), p.describe(add))
-    geb = prog.need("_mtbl_sorter_get_entry_batch", U)
+    # the hand-over is decided in whichever function fills a batch's `entries` (a helper of its own, or the flush itself)
+    gebs = [g for g in prog.unit_funcs(U) if g.file.endswith("sorter.c") and list(field_stores(g, "entry_batch", "entries"))]
+    if len(gebs) != 1:
+        raise BrokenAnalysis("expected one function that fills entry_batch.entries, found %s" % [g.name for g in gebs])
+    geb = gebs[0]
+    res.saw(geb)
     ev = APE.run(prog, cg, geb, bound=APE.BOUND)
     for p in ev.paths:
         if p.end != "exit":
+            continue
+        if not any(e.kind == "store" and e.a.endswith("->entries") for e in p.events):
             continue
         z = [e for e in p.events if e.kind == "store" and e.a.endswith("->entry_bytes")]
         nv = [e for e in p.events if e.kind == "store" and e.a.endswith("->vec")]
